@@ -8,7 +8,8 @@ for id in $ids; do
   if ! git -C /repo apply --check /verif/seeded/$id/patch.diff 2>/dev/null; then echo "$id $prop PATCH-DOES-NOT-APPLY"; continue; fi
   git -C /repo apply /verif/seeded/$id/patch.diff
   mkdir -p out/seeded
-  VERIF_TIER=${VERIF_TIER:-quick} ./check $prop > out/seeded/$id.log 2>&1; rc=$?
+  t=$(python3 -c "import json;print(json.load(open('seeded/$id/meta.json')).get('tier','${VERIF_TIER:-quick}'))")
+  VERIF_TIER=$t ./check $prop > out/seeded/$id.log 2>&1; rc=$?
   git -C /repo checkout -- . ; git -C /repo clean -fdq
   case $rc in 1) r=DETECTED;; 0) r=MISSED;; *) r=INFRA;; esac
   line="$id $prop $r $(grep -m2 'finding:' out/seeded/$id.log | tr '\n' ' ')"
